@@ -209,16 +209,16 @@ func compare(path string, want *tree, got files.Node) string {
 // ------------------------------------------------------------ recording side
 
 type recorder struct {
-	mu       sync.Mutex
-	blocks   map[string][]byte // cid key -> data
-	order    []cid.Cid
-	pins     []*api.Pin
-	allocs   []peer.ID
-	nput     int
-	putLog   []string
-	failAt   int // 1-based index of the BlockPut call to fail; 0 = none
-	failPin  bool
-	allocN   int
+	mu      sync.Mutex
+	blocks  map[string][]byte // cid key -> data
+	order   []cid.Cid
+	pins    []*api.Pin
+	allocs  []peer.ID
+	nput    int
+	putLog  []string
+	failAt  int // 1-based index of the BlockPut call to fail; 0 = none
+	failPin bool
+	allocN  int
 }
 
 func newRecorder(allocs []peer.ID) (*recorder, *sim.RPCRecorder) {
